@@ -175,6 +175,8 @@ fn container_set(sub: &str, thorough: bool) -> Vec<(String, String, Comp, Packag
     // copy of its header at the end of the file)
     if sub == "c05" || sub == "c06" {
         v.push(("multi-zstd-prefixed".into(), "multi".into(), Comp::Zstd(5), Packaging::NoConcat, false));
+        // bare pack files (low-level creators: no container pack around them), swept like the others
+        v.push(("multi-zstd-lowlevel".into(), "multi".into(), Comp::Zstd(5), Packaging::NoConcat, false));
         // the same with a bare content pack file (low-level creators: no container pack around it)
         v.push(("multi-none-lowlevel-prefixed".into(), "multi".into(), Comp::None, Packaging::NoConcat, false));
     }
